@@ -704,6 +704,31 @@ def check_spellings(ctx, cases, exps):
     return len(groups)
 
 
+def setmatches_cases():
+    L = lambda b: {"k": "lit", "s": list(b), "ci": False, "neg": False}
+    anyc = {"k": "cls", "c": "any", "neg": False}
+    cap = lambda name, body: {"k": "cap", "name": name, "body": body}
+    loop = lambda mn, mx, body: {"k": "loop", "min": mn, "max": mx, "few": False, "name": "", "body": body}
+    ref = lambda name: {"k": "ref", "name": name}
+    find = lambda body, amt=None: {"kind": "find", "amt": amt or {"k": "all"}, "body": body}
+    repl = lambda body, w: {"kind": "replace", "amt": {"k": "all"}, "body": body, "with": w}
+    inner = [find([cap("v", L(b"a"))]), repl([L(b"b")], [{"k": "str", "s": [120]}]), find([ref("s")]),
+             find([loop(1, -1, {"k": "or", "l": L(b"a"), "r": L(b"b")})], {"k": "skip", "s": 1}),
+             find([cap("v", anyc), ref("v")]), repl([cap("w", L(b"a"))], [{"k": "name", "name": "w"}, {"k": "name", "name": "w"}])]
+    outer = [(find([cap("v", L(b"a")), L(b"b")]), find([ref("s"), anyc])),
+             (repl([L(b"a")], [{"k": "str", "s": [121]}]), find([loop(1, -1, L(b"b"))])),
+             (find([ref("s")]), find([cap("w", anyc), ref("w")]))]
+    defs = [{"name": "s", "es": [L(b"a"), loop(0, 1, L(b"b"))], "pred": []}]
+    cases = []
+    for i, inn in enumerate(inner):
+        for j, (x, y) in enumerate(outer):
+            for pos in range(3):
+                cmds = [x, y]
+                cmds.insert(pos, {"kind": "setmatches", "name": "m%d" % pos, "cmd": inn})
+                cases.append({"id": len(cases) + 1, "defs": defs, "cmds": cmds, "sigma": [97, 98], "lo": 1, "hi": 4})
+    return cases
+
+
 @check("C13")
 def c13(ctx):
     ctx.technique = ("Transparent: inline / subroutine / global spellings evaluated by TLC to one result and replayed; "
@@ -719,6 +744,9 @@ def c13(ctx):
     # global patterns that contain calls, predicates and other globals, referenced 1-2 times
     gl = [c for c in ctx.gen_cases("C01") if c.get("defs")]
     ctx.replay("C13-globals", gl if not quick else [c for c in gl if c["id"] % 2 == 0], FIELDS["C13"], reject_violation=True)
+    # `set x to matches <command>` between commands: compiled, inert, and without effect on its neighbours
+    sm = setmatches_cases()
+    ctx.replay("C13-set-matches", sm, FIELDS["C13"], reject_violation=True)
     # the relocation of stored global code, on the specification: every command of every program
     vmcases = []
     for c in cases:
